@@ -250,6 +250,26 @@ def gen_export(rng):
 
 
 def gen(rng, n, tier):
+    import hashlib
+    from ..core import Rng
+    opt = Rng(int(hashlib.sha1(("options" + repr(rng.getstate())).encode()).hexdigest()[:15], 16))
+    yield from gen_main(rng, n, tier)
+    # call forms the main stream never uses (OPTIONS_AUDIT.md): the four options by keyword, and options that hold their
+    # documented defaults left out of the call altogether (a reader called as read_cvrs(file) reads current data,
+    # enforces the rules, includes every group and pools none)
+    for c in gen_main(opt, max(8, n // 8), tier):
+        r = opt.random()
+        if r < 0.75:
+            c["call"] = "defaults"
+            for k, dv in (("use_current", True), ("enforce_rules", True), ("include_groups", []), ("pool_groups", [])):
+                if opt.chance(0.55):
+                    c[k] = dv
+        else:
+            c["call"] = "kw"
+        yield c
+
+
+def gen_main(rng, n, tier):
     for i in range(n):
         ig, ik = gen_groups(rng)
         pg, pk = gen_groups(rng)
@@ -308,10 +328,24 @@ def impl(case):
         for name in case.get("decoys", []):
             with open(os.path.join(d, name), "w") as f:
                 json.dump(decoy, f)
-        if case["op"] == "read":
-            cvrs = Dominion.read_cvrs(os.path.join(d, case["files"][0][0]), case["use_current"], case["enforce_rules"], inc, pool)
+        path = os.path.join(d, case["files"][0][0]) if case["op"] == "read" else d
+        fn = Dominion.read_cvrs if case["op"] == "read" else Dominion.read_cvrs_directory
+        call = case.get("call", "pos")
+        if call == "pos":
+            cvrs = fn(path, case["use_current"], case["enforce_rules"], inc, pool)
         else:
-            cvrs = Dominion.read_cvrs_directory(d, case["use_current"], case["enforce_rules"], inc, pool)
+            # the options by keyword; `defaults`: an option whose value is the documented default (use_current=True,
+            # enforce_rules=True, no include groups, no pool groups) is LEFT OUT of the call
+            kw = {"use_current": case["use_current"], "enforce_rules": case["enforce_rules"],
+                  "include_groups": inc, "pool_groups": pool}
+            if call == "defaults":
+                for k, dv in (("use_current", True), ("enforce_rules", True)):
+                    if kw[k] is dv:
+                        del kw[k]
+                for k in ("include_groups", "pool_groups"):
+                    if len(kw[k]) == 0:
+                        del kw[k]
+            cvrs = fn(path, **kw)
         return {"st": "ok", "recs": _canon_recs(cvrs)}
     finally:
         shutil.rmtree(d, ignore_errors=True)
